@@ -181,3 +181,69 @@ theorem lp_parse_serialise (p : Lp) (h : p.WF) (hs : p.opcode = lpStandardReport
     all_goals omega
 
 end Dmr.Hytera
+
+namespace Dmr.Hytera
+open Dmr Dmr.Gen.Hytera
+
+/-! ### exact characterisation of the speeds that overflow the three-octet field -/
+
+/-- what the digits of `repr(v)` of a non-negative float in positional notation look like: at least
+one fraction digit, decimal digits, and zero is written `0.0` -/
+def Dec.canonical (s : Dec) : Prop :=
+  s.frac ≠ [] ∧ (∀ f ∈ s.frac, f < 10) ∧ (s.isZero = true → s = Dec.zero)
+instance (s : Dec) : Decidable s.canonical := by unfold Dec.canonical; infer_instance
+
+theorem natDigits_length_ge_two {n : Nat} (h : 10 ≤ n) : 2 ≤ (natDigits n).length := by
+  have hiff := Nat.length_toDigits_le_iff (b := 10) (n := n) (k := 1) (by decide) (by decide)
+  simp only [natDigits, List.length_map]
+  by_cases hl : (Nat.toDigits 10 n).length ≤ 1
+  · have := hiff.mp hl
+    omega
+  · omega
+
+theorem fmtSpeed_length_iff (s : Dec) (hc : s.canonical) : (fmtSpeed s).length = 3 ↔ s.fits := by
+  obtain ⟨hne, hd, hz⟩ := hc
+  by_cases h0 : s.isZero = true
+  · have := hz h0
+    subst this
+    exact ⟨fun _ => Or.inl rfl, fun _ => rfl⟩
+  · have h0' : s.isZero = false := by simpa using h0
+    have hnz : s ≠ Dec.zero := by
+      intro h; rw [h] at h0; exact h0 (by decide)
+    have hfl : 0 < s.frac.length := List.length_pos_iff.mpr hne
+    have hlen : (fmtSpeed s).length
+        = (if s.ip < 10 then 1 else (natDigits s.ip).length) + 1 + s.frac.length := by
+      unfold fmtSpeed
+      rw [if_neg h0]
+      by_cases hi : s.ip < 10 <;> simp [hi] <;> omega
+    rw [hlen]
+    unfold Dec.fits
+    by_cases hi : s.ip < 10
+    · rw [if_pos hi]
+      constructor
+      · intro h; exact Or.inr ⟨hi, by omega, hd, h0'⟩
+      · rintro (h | ⟨_, h, _⟩)
+        · exact absurd h hnz
+        · omega
+    · rw [if_neg hi]
+      have := natDigits_length_ge_two (n := s.ip) (by omega)
+      constructor
+      · intro h; omega
+      · rintro (h | ⟨h, _⟩)
+        · exact absurd h hnz
+        · exact absurd h hi
+
+/-- the record has its 40 octets exactly when the speed fits -/
+theorem gps_length (g : Gps) (h : g.WF) : g.asBytes.length = 37 + (fmtSpeed g.speed).length := by
+  obtain ⟨valid, time, date, north, lat, east, lon, speed, dir⟩ := g
+  obtain ⟨ht, hd, hla, hlo, hdi⟩ := h
+  simp only at ht hd hla hlo hdi
+  obtain ⟨t0, t1, t2, t3, t4, t5, et, _⟩ := time_field time ht
+  obtain ⟨d0, d1, d2, d3, d4, d5, ed, _⟩ := date_field date hd
+  obtain ⟨a0, a1, a2, a3, a4, a5, a6, a7, a8, ea, _⟩ := lat_field lat hla
+  obtain ⟨o0, o1, o2, o3, o4, o5, o6, o7, o8, o9, eo, _⟩ := lon_field lon hlo
+  obtain ⟨r0, r1, r2, er, _⟩ := dir_field dir hdi
+  simp [Gps.asBytes, et, ed, ea, eo, er]
+  omega
+
+end Dmr.Hytera
